@@ -14,6 +14,7 @@ func init() {
 			{Name: "api", Flavour: "plain", TimeoutQ: m10, TimeoutT: m60, Weight: 4},
 			{Name: "savewindow", Flavour: "plain", TimeoutQ: m10, TimeoutT: m60, Weight: 2},
 			{Name: "signal", Flavour: "plain", TimeoutQ: m10, TimeoutT: m60, Weight: 2},
+			{Name: "opwindow", Flavour: "plain", TimeoutQ: m10, TimeoutT: m60, Weight: 2},
 		},
 	}
 }
